@@ -12,7 +12,7 @@ from . import rules_tile as T
 from . import rules_orient as OR
 from . import rules_more as M
 from . import rules_more2 as M2
-from . import rules_more3 as M3
+from . import rules_more3 as M3, rules_more4 as M4
 
 
 class Spec:
@@ -35,8 +35,29 @@ class Spec:
         # rules every property shares, applied to its own anchor files
         anchors = anchor_modules(self.pid)
         if anchors:
+            # the generic rules report inside the property's own mechanism:
+            # the functions its anchors name and what they call
+            from .scope import mechanism_closure
+            from .report import Collector
+            scope_keys = mechanism_closure(repo, self.pid)
+            real, col = col, Collector(col.prop)
             M2.swapped_arguments(repo, col, shorts=anchors)
             M3.little_endian_literals(repo, col, anchors)
+            M4.optional_float_truthiness(repo, col, anchors)
+            M4.crossed_parallel_assignment(repo, col, anchors)
+            M4.one_shot_iterator_reuse(repo, col, anchors)
+            M4.empty_array_fully_written(repo, col, anchors)
+            M4.sibling_role_tokens(repo, col, anchors)
+            for o in col.obs:
+                ln = None
+                if o.loc and o.loc.rsplit(":", 1)[-1].isdigit():
+                    ln = int(o.loc.rsplit(":", 1)[-1])
+                if scope_keys.covers(o.site, ln) or ":" not in o.site or \
+                        o.site.split(":", 1)[1] in ("module", ""):
+                    real.obs.append(o)
+                    real.rule_counts[o.rule] = \
+                        real.rule_counts.get(o.rule, 0) + 1
+            col = real
 
 
 _ANCHORS = {}
@@ -190,6 +211,7 @@ def c02(repo, col):
       ["value round trips of each codec", "JPEG error bound",
        "interleavings of writes and reads"])
 def c03(repo, col):
+    M4.decode_ignores_write_options(repo, col)
     M3.decoder_fills_output(repo, col)
     M3.encoder_dispatch(repo, col)
     M3.new_dataset_stores_info(repo, col)
@@ -226,6 +248,7 @@ def c03(repo, col):
        "the reorder buffer's run-time state)", "gzip payload validity"],
       ["sharded v1 format as published in the Neuroglancer repository"])
 def c04(repo, col):
+    M4.lowercase_hex_names(repo, col)
     M3.payload_reaches_storage(repo, col, only=["sharded_file_accessor", "sharded_base"])
     SP.sharded_layout(repo, col)
     SP.routing_bits(repo, col)
@@ -234,7 +257,6 @@ def c04(repo, col):
     M.shard_close_sequence(repo, col)
     M2.shard_lifecycle(repo, col)
     M2.shard_protocol_guards(repo, col)
-    M2.swapped_arguments(repo, col)
     M2.shard_name_format_spec(repo, col)
     col.floor("E-SPEC.sharded", 9)
     col.floor("E-ORDER.index-last", 2)
@@ -277,7 +299,6 @@ def c05(repo, col):
     M2.shard_lifecycle(repo, col)
     M2.shard_protocol_guards(repo, col)
     M2.module_level_caches(repo, col, sh)
-    M2.swapped_arguments(repo, col)
     SP.sharded_layout(repo, col, parts=("index", "name", "no-slot"))
     col.floor("E-PROTO", 7)
     col.floor("E-ORDER", 7)
@@ -361,6 +382,7 @@ def c07(repo, col):
        "separately proved)", "NumPy uint64 shift semantics for widths >= 64"],
       ["NumPy defines uint64 shifts by >= 64 as 0"])
 def c09(repo, col):
+    M4.lowercase_hex_names(repo, col, shorts=('sharded_base',))
     B.strict_morton_bound(repo, col)
     B.morton_nonneg(repo, col)
     B.cmc_lattice(repo, col)
@@ -368,7 +390,6 @@ def c09(repo, col):
     SP.morton_loop(repo, col)
     SP.sharded_layout(repo, col, parts=("name",))
     M2.shard_name_format_spec(repo, col)
-    M2.swapped_arguments(repo, col)
     A.check_modules(repo, col, ["sharded_base"])
     M2.module_level_caches(repo, col, ["sharded_base"])
     S.shared_mutable_state(repo, col, ["sharded_base"])
@@ -404,6 +425,10 @@ def c10(repo, col):
     M3.pil_truncation_switch(repo, col)
     X.decoder_scope(repo, col, "chunks")
     X.decoded_shape(repo, col)
+    # the decoder's length guards and block slices pair chunk extents with
+    # block sizes per axis: a mis-paired axis rejects valid data or lets a
+    # short file through to struct
+    A.check_modules(repo, col, ["_compressed_segmentation"])
     col.floor("E-EXC.A", 12)
     col.floor("E-EXC.shape", 2)
 
@@ -475,6 +500,7 @@ def c12(repo, col):
        "flush chain"],
       ["decoded equality of source and destination", "remote sources"])
 def c13(repo, col):
+    M4.convert_all_chunk_sizes(repo, col)
     M3.driver_chain(repo, col, shorts=["scripts.convert_chunks"])
     M3.new_dataset_stores_info(repo, col)
     M3.payload_reaches_storage(repo, col)
@@ -517,6 +543,7 @@ def c13(repo, col):
       ["byte equality with local reads", "server behaviours beyond status "
        "and length"])
 def c14(repo, col):
+    M4.lowercase_hex_names(repo, col)
     M3.seek_before_read(repo, col)
     M3.probe_statuses(repo, col)
     M3.legacy_suffix_polarity(repo, col)
@@ -606,6 +633,8 @@ def c16(repo, col):
        "mm -> nm factor 1e6; fragment link name and JSON shape"],
       ["VTK grammar conformance", "vertex values after arbitrary affines"])
 def c17(repo, col):
+    M4.no_inplace_on_arguments(repo, col, "mesh", "affine_transform_mesh",
+                               ["vertices", "triangles"])
     M3.driver_chain(repo, col, shorts=["scripts.mesh_to_precomputed"])
     M3.label_parsed_as_integer(repo, col)
     SP.mesh_formats(repo, col)
@@ -635,6 +664,7 @@ def c17(repo, col):
       ["atomicity of plain chunk files (there is none: detection relies on "
        "the decoders, C10)", "behaviour under each errno"])
 def c18(repo, col):
+    M4.gzip_wrapper_owns_file(repo, col)
     M3.probe_statuses(repo, col)
     M3.driver_chain(repo, col)
     M3.payload_reaches_storage(repo, col)
@@ -664,6 +694,7 @@ def c18(repo, col):
        "always pass through the codec"],
       ["equality of the two outputs", "idempotence of repeated steps"])
 def c19(repo, col):
+    M4.convert_all_chunk_sizes(repo, col)
     M3.driver_chain(repo, col)
     M3.new_dataset_stores_info(repo, col)
     M3.payload_reaches_storage(repo, col)
